@@ -42,6 +42,8 @@ def generate(rng, prop, tier):
               'sentinel': rng.chance(0.3)}
         if kind == 'raw':
             km['flat'] = True
+        if kind == 'pickle' and arg in ('dill', 'pickle') and rng.chance(0.5):
+            km['proto'] = rng.choice([2, 3])
         if not km['flat']:
             km['sentinel'] = False
         if fn in M.VARIADIC and km['flat']:
@@ -71,6 +73,7 @@ def generate(rng, prop, tier):
                                    'junk_objects': rng.choice([0, 0, 50, 500]),
                                    'subdir': rng.chance(0.3),
                                    'sibling_first': rng.chance(0.3),
+                                   'failed_call_first': rng.chance(0.3),
                                    'other_first': [rng.choice(POOL_HASHABLE[:10]) for _ in range(rng.randint(0, 3))]}})
     # ignore specifications: the names _keygen substitutes for ignored arguments must not make the key depend
     # on the session (iteration order of a set of names is hash-seed dependent)
@@ -191,7 +194,12 @@ def simplify(case):
         if s['noise']['imports'] or s['noise']['junk_objects'] or s['noise'].get('subdir') or s['noise']['other_first']:
             c = _copy.deepcopy(case)
             c['sessions'][i]['noise'] = {'imports': [], 'junk_objects': 0, 'subdir': False, 'other_first': [],
-                                          'sibling_first': s['noise'].get('sibling_first', False)}
+                                          'sibling_first': s['noise'].get('sibling_first', False),
+                                          'failed_call_first': s['noise'].get('failed_call_first', False)}
+            yield c
+        if s['noise'].get('failed_call_first'):
+            c = _copy.deepcopy(case)
+            c['sessions'][i]['noise']['failed_call_first'] = False
             yield c
         if s['noise'].get('sibling_first'):
             c = _copy.deepcopy(case)
